@@ -4,12 +4,14 @@
 package work
 
 import (
+	"bufio"
 	"bytes"
 	"errors"
 	"fmt"
 	"io"
 	stdos "os"
 	"path/filepath"
+	"strings"
 	stdsync "sync"
 	"syscall"
 
@@ -34,7 +36,7 @@ type Op struct {
 	Slot     int             `json:"slot,omitempty"`   // 1+slot: detect/lookup publish into it, use reads it
 	Shared   int             `json:"shared,omitempty"` // 1+index of a shared input buffer
 	Arr      int             `json:"arr,omitempty"`    // readarr: array index
-	Wrap     string          `json:"wrap,omitempty"`   // reader: "", wt, bytes, seek, len
+	Wrap     string          `json:"wrap,omitempty"`   // reader: "", wt, seek, len, rat, bufio, osfile (stream based); bytes, strings, buffer, section, osfile-real (standard types, no fault)
 	Reuse    bool            `json:"reuse,omitempty"`  // detect: the caller reuses one buffer (same address) for successive inputs
 }
 
@@ -91,7 +93,9 @@ type OpRes struct {
 	Stream      *simio.Stream
 	Opens       int
 	Closes      int
-	BytesLeft   int // wrap=bytes: unread bytes
+	BytesLeft   int // reader: bytes of the input not consumed
+	Consumed    int // reader: bytes taken out of the reader the caller handed in (its final position for seekable ones)
+	ConsumedSet bool
 	BufChanged  bool
 	Is          []bool
 	IsNames     []string
@@ -220,7 +224,10 @@ func Materialise(p *Plan, realDir string) *World {
 				x = op.In.Bytes()
 			}
 			w.Bytes[ti][oi] = x
-			if op.Kind != "file" {
+			if op.Kind == "reader" && op.Wrap == "osfile-real" && realDir != "" {
+				_ = stdos.WriteFile(w.realPath(ti, oi), x, 0o644)
+			}
+			if op.Kind != "file" && !(op.Kind == "reader" && op.Wrap == "osfile") {
 				continue
 			}
 			d := simio.NoFault()
@@ -261,7 +268,7 @@ func (w *World) Cleanup() {
 	}
 	for ti, ops := range w.Plan.Tasks {
 		for oi, op := range ops {
-			if op.Kind == "file" && (op.FileKind == "real" || op.FileKind == "real-dir") {
+			if (op.Kind == "file" && (op.FileKind == "real" || op.FileKind == "real-dir")) || (op.Kind == "reader" && op.Wrap == "osfile-real") {
 				_ = stdos.RemoveAll(w.realPath(ti, oi))
 			}
 		}
@@ -377,6 +384,15 @@ type seekReader struct{ s *simio.Stream }
 func (r seekReader) Read(p []byte) (int, error)                { return r.s.Read(p) }
 func (r seekReader) Seek(off int64, whence int) (int64, error) { return r.s.Seek(off, whence) }
 
+// ratReader additionally offers io.ReaderAt, io.Seeker and Size() (like
+// *bytes.Reader, *strings.Reader, *io.SectionReader, *os.File).
+type ratReader struct{ s *simio.Stream }
+
+func (r ratReader) Read(p []byte) (int, error)                { return r.s.Read(p) }
+func (r ratReader) Seek(off int64, whence int) (int64, error) { return r.s.Seek(off, whence) }
+func (r ratReader) ReadAt(p []byte, off int64) (int, error)   { return r.s.ReadAt(p, off) }
+func (r ratReader) Size() int64                               { return int64(len(r.s.Data)) }
+
 // lenReader additionally offers Len() (like *bytes.Reader, *bytes.Buffer, *strings.Reader).
 type lenReader struct{ s *simio.Stream }
 
@@ -452,26 +468,72 @@ func (w *World) Exec(t *core.Task, ti, oi int) {
 		s := &simio.Stream{Data: x, D: d}
 		res.Stream = s
 		var rd io.Reader = struct{ io.Reader }{s}
-		var br *bytes.Reader
+		consumed := func() int { return s.Handed }
+		var after func()
 		switch op.Wrap {
 		case "wt":
 			rd = wtReader{s}
 		case "seek":
 			rd = seekReader{s}
+			consumed = func() int { return s.Pos() }
 		case "len":
 			rd = lenReader{s}
-		case "bytes":
-			br = bytes.NewReader(x)
+		case "rat":
+			rd = ratReader{s}
+			consumed = func() int { return s.Pos() }
+		case "bufio":
+			// a *bufio.Reader handed in by the caller: what counts is what was taken out of
+			// it, not what it read ahead from the stream below
+			br := bufio.NewReaderSize(struct{ io.Reader }{s}, 16+len(x)%5000)
 			rd = br
-			res.Stream = nil
+			consumed = func() int { return s.Handed - br.Buffered() }
+		case "bytes":
+			br := bytes.NewReader(x)
+			rd, res.Stream = br, nil
+			consumed = func() int { return len(x) - br.Len() }
+		case "strings":
+			sr := strings.NewReader(string(x))
+			rd, res.Stream = sr, nil
+			consumed = func() int { return len(x) - sr.Len() }
+		case "buffer":
+			bb := bytes.NewBuffer(append([]byte(nil), x...))
+			rd, res.Stream = bb, nil
+			consumed = func() int { return len(x) - bb.Len() }
+		case "section":
+			sr := io.NewSectionReader(bytes.NewReader(x), 0, int64(len(x)))
+			rd, res.Stream = sr, nil
+			consumed = func() int { p, _ := sr.Seek(0, io.SeekCurrent); return int(p) }
+		case "osfile":
+			// an *os.File the caller opened itself and hands to DetectReader
+			f, err := shimos.Open(simPath(ti, oi))
+			if err != nil {
+				panic("harness: simulated file missing: " + err.Error())
+			}
+			if res.Stream != nil && res.Stream != s {
+				s = res.Stream // the stream the shim opened
+			}
+			rd = f
+			consumed = func() int { return s.Pos() }
+			after = func() { f.Close() }
+		case "osfile-real":
+			pth := w.realPath(ti, oi)
+			f, err := shimos.Open(pth)
+			if err != nil {
+				panic("harness: real file missing: " + err.Error())
+			}
+			rd, res.Stream = f, nil
+			consumed = func() int { p, _ := f.Seek(0, io.SeekCurrent); return int(p) }
+			after = func() { f.Close() }
 		}
 		t.OpInvoke(oi, tag)
 		m, err := mimetype.DetectReader(rd)
 		t.OpReturn(oi)
 		res.R = lib.Observe(m)
 		classify(err, res)
-		if br != nil {
-			res.BytesLeft = br.Len()
+		res.Consumed, res.ConsumedSet = consumed(), true
+		res.BytesLeft = len(x) - res.Consumed
+		if after != nil {
+			after()
 		}
 		w.publish(op, m, res, ti, oi)
 	case "file":
